@@ -176,3 +176,19 @@ Example upstream_history_is_sequential :
   uppolls_in P0 init_state ops_up = [UAItem 1%N; UAPend; UAItem 2%N; UAItem 3%N; UAEnd]
   /\ fst (up_run false (mk_upstream ups_ex 0 None) 5) = [UAItem 1%N; UAPend; UAItem 2%N; UAItem 3%N; UAEnd].
 Proof. vm_compute. split; reflexivity. Qed.
+
+(** AllocHistory, FuturesOrdered: the front child stays pending while six later ones complete
+    and are parked: the poll grows the heap twice (0 -> 4 -> 8); 9 allocator calls in all at a
+    peak of 7 (in progress + parked) *)
+From FB Require Import Ordered.
+Definition cp_fo : cparams := {| p_cap := 0; p_new := true; p_iter := false; p_lazy := false; p_seed := None; p_hlo := 0; p_hhi := None |}.
+Definition ops_fo : list op :=
+  [OBuild TFO cp_fo [] []; OPush 1%N [([], RP); ([], RR)]; OPush 2%N [([], RR)]; OPush 3%N [([], RR)]; OPush 4%N [([], RR)];
+   OPush 5%N [([], RR)]; OPush 6%N [([], RR)]; OPush 7%N [([], RR)]; OPoll 0 no_inj; OEnv (AWakeRef 0)].
+Example allocations_of_an_ordered_history :
+  list_sum (run_allocs P0 init_state ops_fo) = 9 /\ run_peak P0 init_state ops_fo = 7
+  /\ match st_coll (reach P0 ops_fo) with
+     | CFo q => length (oheap (fu_ord q)) = 6 /\ hcap (fu_ord q) = 8
+     | _ => False
+     end.
+Proof. vm_compute. repeat split; reflexivity. Qed.
